@@ -42,3 +42,15 @@ func VerifLazyStep(p Packet) bool {
 	lp.decodeNextLayer()
 	return true
 }
+
+// VerifPooledBlock returns the pool block (its first byte address and length)
+// backing a pooled packet, or nil.
+func VerifPooledBlock(p Packet) *[]byte {
+	switch pp := p.(type) {
+	case *pooledPacket:
+		return pp.origData
+	case pooledPacket:
+		return pp.origData
+	}
+	return nil
+}
